@@ -1,7 +1,7 @@
 (* TerminationUsers.v -- consequences of the termination of the derivative exploration for its users:
    is_empty_re, get_string, compile, try_compile return (they do not run out of fuel and do not
-   panic) for every term of potential <= U32MAX in a manager with an honest cache; the exploration
-   leaves the cache honest. *)
+   panic) for every owned term of a manager with an honest cache (no bound on the potential since
+   the repair of D11); the exploration leaves the cache honest. *)
 Require Import Base CharSet Partition PartitionSpec LoopRange Regex Inclusion Constructors Deriv Explore Automaton Compile Denote Sem.
 Require Import Lang PartitionProofs LoopRangeProofs ManagerProofs ConstructorProofs RunProofs DerivProofs.
 Require Import Termination TerminationPot TerminationNorm TerminationDeriv TerminationFin TerminationTotal TerminationProofs.
@@ -53,32 +53,32 @@ Proof.
 Qed.
 
 (* ---- the users ---- *)
-Theorem is_empty_re_terminates m e : dwf m -> hon m -> owned m e -> phi e <= U32MAX ->
+Theorem is_empty_re_terminates m e : dwf m -> hon m -> owned m e ->
   exists fuel m' b, is_empty_re fuel m e = Some (m', b).
 Proof.
-  intros Dm Hm Oe HP. destruct (iter_terminates_small m e Dm Hm Oe HP) as (m1 & l & H).
+  intros Dm Hm Oe. destruct (iter_terminates m e Dm Hm Oe) as (m1 & l & H).
   destruct (ExploreProofs.is_empty_re_iter _ m e m1 l H) as [m2 E]. eauto.
 Qed.
 
-Theorem get_string_terminates m e : dwf m -> hon m -> owned m e -> phi e <= U32MAX ->
+Theorem get_string_terminates m e : dwf m -> hon m -> owned m e ->
   exists fuel m' res, get_string fuel m e = Some (m', res).
 Proof.
-  intros Dm Hm Oe HP. destruct (iter_terminates_small m e Dm Hm Oe HP) as (m1 & l & H).
+  intros Dm Hm Oe. destruct (iter_terminates m e Dm Hm Oe) as (m1 & l & H).
   destruct (EmptinessProofs.iter_premises _ m e m1 l Dm Oe H) as (Hd & Hc & _).
   destruct (ExploreProofs.get_string_of_iter _ m e m1 l H Hd Hc) as (m2 & res & G & _). eauto.
 Qed.
 
-Theorem compile_terminates m e : dwf m -> hon m -> owned m e -> phi e <= U32MAX ->
+Theorem compile_terminates m e : dwf m -> hon m -> owned m e ->
   exists fuel m' A, compile_with_bound fuel m e None = Some (m', Some A).
 Proof.
-  intros Dm Hm Oe HP. destruct (iter_terminates_small m e Dm Hm Oe HP) as (m1 & l & H).
+  intros Dm Hm Oe. destruct (iter_terminates m e Dm Hm Oe) as (m1 & l & H).
   destruct (CompileProofs.compile_returns_of_iter _ m e m1 l Dm Oe H) as [(A & E) _]. eauto.
 Qed.
 
-Theorem try_compile_terminates m e n : dwf m -> hon m -> owned m e -> phi e <= U32MAX ->
+Theorem try_compile_terminates m e n : dwf m -> hon m -> owned m e ->
   exists fuel m' oa, compile_with_bound fuel m e (Some n) = Some (m', oa).
 Proof.
-  intros Dm Hm Oe HP. destruct (iter_terminates_small m e Dm Hm Oe HP) as (m1 & l & H).
+  intros Dm Hm Oe. destruct (iter_terminates m e Dm Hm Oe) as (m1 & l & H).
   destruct (CompileProofs.compile_returns_of_iter _ m e m1 l Dm Oe H) as [_ G]. specialize (G n).
   destruct (Nat.leb (length l) n); [destruct G as [A E] | destruct G as [m2 E]]; eauto.
 Qed.
